@@ -1077,8 +1077,10 @@ class Interp:
             if k in ("resume", "terminate", "coroutine_drop"):
                 return
             if k == "yield":
-                yield Outcome("cut", None, path, site=F.site_str(body, t["sp"]), msg="yield", stack=frame.stack())
-                return
+                # an await point: the caller may resume us later; keep analysing the resumed path
+                path.events.append(("yield", F.site_str(body, t["sp"])))
+                bb = t["t"]
+                continue
             if k == "switch":
                 d = self.eval_operand(path, frame, t["discr"])
                 dv = self.decide(path, d)
